@@ -120,6 +120,8 @@ func gen(tier string, rng *h.Rng, emit func(string)) {
 			}
 		}
 	}
+	// call histories on shared mutable objects (hist.go)
+	genHistories(thorough, rng, emit, sks)
 	// concurrent use of one key object (bls.Verify must not write to its arguments)
 	for i := 0; i < pick(4, 12); i++ {
 		sk := sks[4+rng.Intn(len(sks)-4)]
